@@ -158,6 +158,7 @@ def _strip_tags(s):
 
 
 _nread = [0]
+_last_via = ["base"]
 
 
 def check(ctx, model, seed_style, workload="gen", memo=True, poison=None, via=None):
@@ -199,6 +200,7 @@ def check(ctx, model, seed_style, workload="gen", memo=True, poison=None, via=No
     via = via or VIAS[_nread[0] % len(VIAS)]
     _nread[0] += 1
     wit["read_through"] = via
+    _last_via[0] = via
     ctx.hit("read-through:" + via)
     try:
         ok, res = ctx.guard("read", wit, read, text, via)
@@ -282,6 +284,7 @@ def run(ctx):
             ctx.hit("conjugate-event-type")
         style = ctx.rng.randrange(10**9)
         check(ctx, model, style, memo=not (i == 3 and ctx.shard == 0))
+        via_used = _last_via[0]
         if i % 3 == 1:
             # the next text of the process: the same lines under the other setting of the cartesian option (numbers now mean real / imaginary, or the reverse)
             import copy  # noqa: PLC0415
@@ -289,7 +292,7 @@ def run(ctx):
             m2 = copy.deepcopy(model)
             m2["cartesian"] = 1 if not model["cartesian"] else ctx.rng.choice([None, 0])
             ctx.hit("same-lines-read-again-under-the-other-cartesian-setting")
-            check(ctx, m2, style, poison=False)
+            check(ctx, m2, style, poison=False, via=(via_used if i % 2 else None))      # through the same reader class as before (or the next one in turn)
         if len(ctx.violations) >= ctx.max_violations:
             return
     if ctx.shard == ctx.nshards - 1:
